@@ -297,7 +297,46 @@ def _ids_rules(E: Engine, rep: Report) -> None:
                       f"ParamObj.{nm} evaluates `{sh(l.value, 60)}` without first checking that a positional argument exists (path: `{sh(l.cond, 100)}`): an object created with keyword arguments only, e.g. ConstantWaveform(duration=var, value=1.0), raises IndexError in this encoder", E.where(pf, l.node))
     if n_h < 2:
         raise AnalysisError(f"anchor: the classmethod test `hasattr(args[0], cls.__name__)` was found in {n_h} of the 2 ParamObj encoders")
-    rep.floor("IDS", 5)
+    # ---- round 5: defects found by an independent audit, repaired in /repo, kept from coming back ----
+    # (a) positional arguments of a parametrized call are paired with names without silent truncation: where
+    #     `zip(<names>, self.args)` is used, the names depend on a comparison with len(self.args) (or the path does)
+    pa = E.method("pulser.parametrized.paramobj.ParamObj", "_to_abstract_repr")
+    n_zip = 0
+    for l in S(E, pa, inline=False).calls("zip"):
+        if len(l.value[2]) != 2 or l.value[2][1] != ("attr", ("name", "self"), "args"):
+            continue
+        n_zip += 1
+        len_args = sym.Pattern("len(self.args)").term
+        guarded = any(t[0] == "cmp" and sym.contains(t, len_args) for t in sym.subterms(l.value[2][0])) or any(x[0] == "cmp" and sym.contains(x, len_args) for x in sym.conj_of(l.cond))
+        rep.check(guarded, "IDS", "ParamObj._to_abstract_repr|positional-arguments-not-truncated", "zip(names, self.args) under a comparison with len(self.args)",
+                  f"ParamObj._to_abstract_repr pairs `{sh(l.value[2][0], 60)}` with self.args through zip(), which drops the arguments beyond the listed names: a parametrized InterpolatedWaveform(dur, values, times, 'interp1d') is exported as an ordinary (Pchip) interpolated waveform and the decoded sequence builds another pulse", E.where(pa, l.node))
+    if n_zip < 1:
+        raise AnalysisError("anchor: ParamObj._to_abstract_repr no longer pairs signature names with self.args")
+    # (b) both encoders of a variable item turn a slice key into indices (a slice is not JSON serialisable)
+    for nm in ("_to_dict", "_to_abstract_repr"):
+        vf = E.method("pulser.parametrized.variable.VariableItem", nm)
+        handles = any(t[0] == "call" and t[1] == ("name", "isinstance") and len(t[2]) == 2 and (("name", "slice") in sym.subterms(t[2][1]) or any(y == ("attr", ("name", "abc"), "Sequence") for y in sym.subterms(t[2][1]))) for l in S(E, vf, inline=False).log for v in (l.cond, l.value) if v is not None for t in sym.subterms(v))
+        r_ = S(E, vf, inline=False).ret
+        handles = handles or (r_ is not None and any(t[0] == "call" and t[1] == ("name", "isinstance") for t in sym.subterms(r_)))
+        rep.check(handles, "IDS", f"VariableItem.{nm}|slice-key-converted", "the key is dispatched on its kind (slice -> list of indices)", f"VariableItem.{nm} hands its key on as it is: for a slice key (`var[1:]`, accepted by Variable.__getitem__) the JSON encoder raises 'Object of type slice is not JSON serializable'", E.where(vf))
+    # (c) the two JSON encoders convert the same families of numpy scalars
+    fam = {}
+    for q in ("pulser.json.coders.PulserEncoder.default", "pulser.json.abstract_repr.serializer.AbstractReprEncoder.default"):
+        ef = E.fn(q)
+        fam[q] = {sh(t[2][1], 40) for l in S(E, ef, inline=False).log for t in sym.subterms(l.cond) if t[0] == "call" and t[1] == ("name", "isinstance") and len(t[2]) == 2 and sh(t[2][1], 40).startswith("np.")}
+    a_, b_ = list(fam.values())
+    for q, f_ in fam.items():
+        rep.check({"np.integer", "np.floating"} <= f_, "IDS", f"{q.split('.')[-2]}.default|numpy-scalars-converted", "np.integer and np.floating are converted to int / float", f"{q.split('.')[-2]}.default converts {sorted(f_)} only: a np.float32 (or np.int32) value that the sequence accepts (phase shift, EOM parameters) makes the encoder raise TypeError", E.where(E.fn(q)))
+    rep.check(a_ == b_, "IDS", "encoders|same-numpy-families", "the legacy and the abstract encoder convert the same numpy types", f"the two encoders convert different numpy types: {sorted(a_)} vs {sorted(b_)}", E.where(E.fn(list(fam)[0])))
+    # (d) a decoded legacy sequence is parametrized iff calls wait to be built (declaring a variable is not enough)
+    oh = E.fn("pulser.json.coders.PulserDecoder.object_hook")
+    bst = [l for l in S(E, oh, inline=False).logged("store") if l.target is not None and l.target[0] == "attr" and l.target[2] == "_building"]
+    if not bst:
+        raise AnalysisError("anchor: PulserDecoder.object_hook no longer sets seq._building")
+    for l in bst:
+        v_ = sh(l.value, 200)
+        rep.check("to_build_calls" in v_ and "'vars'" not in v_, "IDS", "PulserDecoder.object_hook|_building-from-to_build_calls", "seq._building = not obj['to_build_calls']", f"the legacy decoder sets _building = `{v_}`: a sequence that declares a variable without using it comes back parametrized (get_duration / sample / draw raise), unlike the original", E.where(oh, l.node))
+    rep.floor("IDS", 11)
 
 
 def _replay_order(E: Engine, rep: Report, des_f) -> None:
